@@ -686,7 +686,7 @@ def generate_ofm_scaling_for_pooling(emit: CommandStreamEmitter, pool_op: NpuPoo
     ofm_quant = pool_op.ofm.quantization
     if pool_op.activation is not None and pool_op.activation.op_type in (NpuActivationOp.SIGMOID, NpuActivationOp.TANH):
         assert ifm_quant.scale_f32 is not None
-        rescale = 0x3000 * ifm_quant.scale_f32
+        rescale = 0x3000 * float(ifm_quant.scale_f32)
         if pool_op.ifm.data_type == NpuDataType.INT16:
             # Calculate scale and shift for the output scale of 1/(3*4096)
             x_log2 = math.log2(ifm_quant.scale_f32)
@@ -736,7 +736,7 @@ def generate_ofm_scaling_for_pooling(emit: CommandStreamEmitter, pool_op: NpuPoo
         # Normally the scale is maximised, to get maximum precision, which means that
         # if rescale != 1, scale need to consider the number of bits needed for rescaling
         if ofm_quant.scale_f32 is not None and ifm_quant.scale_f32 is not None:
-            rescale = ifm_quant.scale_f32 / ofm_quant.scale_f32
+            rescale = float(ifm_quant.scale_f32) / float(ofm_quant.scale_f32)
             rescale_bits = 0
             if kernel.height == kernel.width == 1:
                 if rescale > 1:
